@@ -192,6 +192,9 @@ func (bd *BlockDownloader) Run(ctx context.Context, interrupt <-chan interface{}
 		logger.WarnWithFields(ctx, []logger.Field{
 			logger.MillisecondsFromNano("elapsed_ms", time.Since(start).Nanoseconds()),
 		}, "Block download timed out")
+		// Stop the download at the node too, otherwise a stream that ends later would still be
+		// processed after this download was given up.
+		bd.cancelAndWaitForComplete(ctx)
 		return ErrTimeout
 
 	case err := <-bd.Complete:
